@@ -78,6 +78,12 @@ def configs(rng, thorough):
                 IR.route("gate_xy", ["y"], ["x_step", "a_step", "END"], [["x_step"], ["END"]])]
     out.append((IR.prog("top", two_loops(), max_iter=12), list(IR.UNSET), "two-loops-linked-by-gates", "sync"))
     out.append((IR.prog("top", list(reversed(two_loops())), max_iter=12), list(IR.UNSET), "two-loops-linked-by-gates", "async"))
+    # two CHAINED cycles: A(x)->y, B(y)->x and downstream C(x, z)->w, D(w)->z.  x circulates in the first cycle only: it is
+    # not an entry parameter of C (one listed entry point per cycle must be accepted; C's own seed is z)
+    def chained():
+        return [IR.func("A", ["x"], ["y"]), IR.func("B", ["y"], ["x"]), IR.func("C", ["x", "z"], ["w"]), IR.func("D", ["w"], ["z"])]
+    out.append((IR.prog("top", chained(), max_iter=6), list(IR.UNSET), "two-chained-cycles", "sync"))
+    out.append((IR.prog("top", list(reversed(chained())), max_iter=6), list(IR.UNSET), "two-chained-cycles", "async"))
     # a selection whose producer depends on another node only through an ordering signal (emit / wait_for):
     # the emitter's own input belongs to the narrowed contract
     def ordered():
@@ -153,6 +159,8 @@ def configs(rng, thorough):
         sel = IR.UNSET
         if rng.random() < 0.2 and data:
             sel = rng.sample(data, 1)
+        elif rng.random() < 0.12 and data:
+            sel = list(data)          # a run-time selection naming EVERY output: still a selection (side-effect-only nodes are outside it)
         try:
             specs.real_spec(prog)
         except Exception:  # noqa: BLE001
